@@ -66,21 +66,15 @@ where
 // NOTE: yes, I know the = / => distinction is ugly
 macro_rules! like_try_into {
     ($self:ident, $source:ty = $target:ty, $w:ident, $m:ident, $c:ident) => {{
-        let min = <$target>::min_value() as $source;
-        let max = <$target>::max_value() as $source;
-        if *$self <= max && *$self >= min {
-            $w.$m(*$self as $target)
-        } else {
-            Err(bad($self, $c))
+        match <$target>::try_from(*$self) {
+            Ok(v) => $w.$m(v),
+            Err(_) => Err(bad($self, $c)),
         }
     }};
     ($self:ident, $source:ty => $target:ty, $w:ident, $m:ident, $c:ident) => {{
-        let min = <$target>::min_value() as $source;
-        let max = <$target>::max_value() as $source;
-        if *$self <= max && *$self >= min {
-            $w.$m::<LittleEndian>(*$self as $target)
-        } else {
-            Err(bad($self, $c))
+        match <$target>::try_from(*$self) {
+            Ok(v) => $w.$m::<LittleEndian>(v),
+            Err(_) => Err(bad($self, $c)),
         }
     }};
 }
@@ -174,21 +168,21 @@ impl ToMysqlValue for i8 {
                 if signed {
                     w.write_i64::<LittleEndian>(i64::from(*self))
                 } else {
-                    w.write_u64::<LittleEndian>(*self as u64)
+                    like_try_into!(self, Self => u64, w, write_u64, c)
                 }
             }
             ColumnType::MYSQL_TYPE_LONG | ColumnType::MYSQL_TYPE_INT24 => {
                 if signed {
                     w.write_i32::<LittleEndian>(i32::from(*self))
                 } else {
-                    w.write_u32::<LittleEndian>(*self as u32)
+                    like_try_into!(self, Self => u32, w, write_u32, c)
                 }
             }
             ColumnType::MYSQL_TYPE_SHORT | ColumnType::MYSQL_TYPE_YEAR => {
                 if signed {
                     w.write_i16::<LittleEndian>(i16::from(*self))
                 } else {
-                    w.write_u16::<LittleEndian>(*self as u16)
+                    like_try_into!(self, Self => u16, w, write_u16, c)
                 }
             }
             ColumnType::MYSQL_TYPE_TINY => {
@@ -237,14 +231,14 @@ impl ToMysqlValue for i16 {
                 if signed {
                     w.write_i64::<LittleEndian>(i64::from(*self))
                 } else {
-                    w.write_u64::<LittleEndian>(*self as u64)
+                    like_try_into!(self, Self => u64, w, write_u64, c)
                 }
             }
             ColumnType::MYSQL_TYPE_LONG | ColumnType::MYSQL_TYPE_INT24 => {
                 if signed {
                     w.write_i32::<LittleEndian>(i32::from(*self))
                 } else {
-                    w.write_u32::<LittleEndian>(*self as u32)
+                    like_try_into!(self, Self => u32, w, write_u32, c)
                 }
             }
             ColumnType::MYSQL_TYPE_SHORT | ColumnType::MYSQL_TYPE_YEAR => {
@@ -286,7 +280,7 @@ impl ToMysqlValue for i32 {
                 if signed {
                     w.write_i64::<LittleEndian>(i64::from(*self))
                 } else {
-                    w.write_u64::<LittleEndian>(*self as u64)
+                    like_try_into!(self, Self => u64, w, write_u64, c)
                 }
             }
             ColumnType::MYSQL_TYPE_LONG | ColumnType::MYSQL_TYPE_INT24 => {
